@@ -174,7 +174,7 @@ func TestC18(t *testing.T) {
 	vals := []string{"", "a", "b", "x\r\ny", "\x00\xff+OK\r\n", "12"}
 	members := []string{"m1", "m2", "m3"}
 	scores := []string{"1", "2", "2", "3", "-1.5", "0", "1e3", "2.5"}
-	h.Rapid("programs", h.N(10000, 100000), func(rt *rapid.T) {
+	h.Rapid("programs", h.N(10000, 300000), func(rt *rapid.T) {
 		pick := func(label string, pool []string) string { return rapid.SampledFrom(pool).Draw(rt, label) }
 		n := rapid.IntRange(1, 40).Draw(rt, "len")
 		// concentrate on one or two data types per program so that state is revisited
